@@ -35,6 +35,12 @@ func verifCfg(c *nodeConfig) map[string]any {
 		enc = append(enc, append([]string{}, e...))
 	}
 	m["enc"] = enc
+	// the spare capacity behind each pair (memory shared with the caller's slice)
+	spare := make([][]string, 0, len(c.enc))
+	for _, e := range c.enc {
+		spare = append(spare, append([]string{}, e[len(e):cap(e)]...))
+	}
+	m["encspare"] = spare
 	m["err"] = ""
 	m["errset"] = c.err != nil
 	if c.err != nil {
